@@ -497,6 +497,26 @@ theorem afterComplement_spec (opt : Opt) (n : Nat) (hz : AllNonzero opt.bounds.l
         exact ⟨_, rfl, he, allNonzero_of_eraseLast_eq he (mapBounds_complement_nonzero _ _ hz),
           markLast_lastMarked _ _ (mapBounds_complement_noneMarked _ _) hm⟩
 
+/-- **`UserBoundsList::unpack` never fails on a list with a bound**, and delivers the
+    specification's expanded list with `is_last` set on exactly its last bound -/
+theorem unpackList_spec (l : List BoF) (n : Nat) (hz : AllNonzero l) (hpos : 0 < countBounds l) :
+    ∃ ubl, unpackList l n = .ok ubl ∧
+      ubl.list.map eraseLast = (mapBounds (expandBound · n) l).map eraseLast ∧
+      AllNonzero ubl.list ∧ LastMarked ubl.list := by
+  unfold unpackList
+  rw [flatMap_unpackBof_eq n _ hz]
+  unfold fromVec
+  simp only []
+  cases hm : markLast (mapBounds (expandBound · n) l) with
+  | none =>
+    have h0 := countBounds_eq_zero_of_markLast_none _ hm
+    have h1 := countBounds_le_expand n l
+    omega
+  | some l' =>
+    have he := markLast_eraseLast _ _ hm
+    exact ⟨_, rfl, he, allNonzero_of_eraseLast_eq he (mapBounds_expand_nonzero _ _ hz),
+      markLast_lastMarked _ _ (mapBounds_expand_noneMarked _ _) hm⟩
+
 /-- the unpack pass against the specification's unconditional expansion: it never fails, and what
     it delivers is — for `emit` — the expanded list -/
 theorem stageUnpack_spec (opt : Opt) (n : Nat) (ubl : UserBoundsList)
